@@ -143,7 +143,8 @@ def main():
             cfg.setdefault('name', '%s-%d' % (cfg['impl'], i))
             cfg['prop'] = prop
             cfg['tier'] = args.tier
-            cfg['seed'] = derive_seed(seed, prop, cfg['name'],
+            cfg['seed'] = derive_seed(seed, prop,
+                                      cfg.get('seed_group') or cfg['name'],
                                       cfg.get('shard', 0))
             if 'n' in cfg:
                 cfg['n'] = max(1, int(cfg['n'] * args.scale))
@@ -245,6 +246,24 @@ def report(prop, mod, args, seed, done, t0, replay=False):
             'nontrivial': len(s['nontrivial_hashes']),
             'wall_s': s['wall_s'], 'out_of_time': s['out_of_time'],
             'seed': cfg.get('seed')})
+
+    cross = getattr(mod, 'cross_check', None)
+    if cross and not replay:
+        extras = []
+        for w in done:
+            try:
+                extras.append((w['cfg'], json.load(open(w['out'])).get('extra')))
+            except Exception:
+                pass
+        for k, (sig, msg, case, cfg) in enumerate(cross(extras) or ()):
+            d = os.path.join(VERIF, 'replays', prop)
+            os.makedirs(d, exist_ok=True)
+            path = os.path.join(d, 'cross-%d-%s.json' % (k, seed))
+            with open(path, 'w') as f:
+                json.dump({'property': prop, 'config': cfg, 'case': case,
+                           'signature': sig, 'observed': msg}, f, indent=1,
+                          default=repr)
+            violations.append({'sig': sig, 'msg': msg, 'replay': path})
 
     for sig, text in sorted(known.items()):
         print('KNOWN-FINDING: property=%s sig=%s reproduced=%s %s' % (
